@@ -130,8 +130,8 @@ def b2i(b):
 
 
 # schemas used in VCs whose Lean proof is not (yet) in lemmas/: reported as ASSUMED LEMMAS in every evidence file
-ASSUMED_SCHEMAS = ['isperm_range', 'invperm_facts', 'sortedperm_iff_isperm', 'imapsub_len', 'imapsub_get',
-                   'haszero_witness (zpos)', 'maxabs_witness (mpos)', 'iget_le_maxabs', 'iget_ne_zero', 'cget_snoc', 'card2_store']
+ASSUMED_SCHEMAS = ['card2_store side condition: proved in Lean (CnfSem.card2_store) for FINITE pair sets only; that every edge set '
+                   'is finite (built from the empty set by finitely many add/remove) is not expressible in the VCs']
 
 # ---------------------------------------------------------------------------------
 # lemma schemas: (name, lean theorem or 'assumed', variable sorts, builder)
